@@ -1,5 +1,6 @@
 import Ruint.Lemmas.InvRing
 import Ruint.Lemmas.GenMulWrap
+import Ruint.Lemmas.GenInvRing
 import Ruint.Gen.InvRingConsts
 
 /-!
@@ -204,5 +205,12 @@ theorem gen_checked_saturating_mul_eq (bits : ℕ) (hN : nlimbs bits < 2 ^ 64) (
     Ruint.Gen.uint_checked_mul bits (nlimbs bits) a b = checkedMul bits a b
     ∧ Ruint.Gen.uint_saturating_mul bits (nlimbs bits) a b = saturatingMul bits a b :=
   ⟨Ruint.GenMulWrap.checked_mul_eq bits hN a b, Ruint.GenMulWrap.saturating_mul_eq bits hN a b⟩
+
+/-- **`Uint::inv_ring` as generated from the source** (guard, the `Wrapping<u64>` seed block with its four Newton steps, the
+    doubling loop `result *= Self::from(2) - self * result` — the `Uint` operators read as `wrapping_mul` / `wrapping_sub` —,
+    `apply_mask`) equals the model; the driver runs it. -/
+theorem gen_inv_ring_eq (bits : ℕ) (hN : nlimbs bits < 2 ^ 63) (a : List ℕ) (ha : Canon bits a) :
+    Ruint.Gen.uint_inv_ring (nlimbs bits + 1) bits (nlimbs bits) a = invRing bits a :=
+  Ruint.GenInvRing.inv_ring_eq bits hN a ha.1
 
 end Ruint.C02
